@@ -1,11 +1,14 @@
 /-
   Model driver for C03.
   * `shape:32`  `circle|rect cx cy r tol mx my` → `v n (x y)* t m (i)*` from the model of basic_shapes.rs
+  * `helpers:32` `rect|circle|ellipse|rrect|polygon|fillcircle positive …` → the builder calls of the shape
+                helper (`B x y | L x y | Q cx cy x y | C c1 c2 x y | E close`) from Model/Path/Shapes.lean
   * `chk_curve` the slab checker on the real fill output against a certified flattening of the exact boundary
 -/
 import LyonVerif.Drive.Common
 import LyonVerif.Drive.SlabIO
 import LyonVerif.Model.Tess.BasicShapes
+import LyonVerif.Model.Path.Shapes
 
 namespace Lyon.Drive.C03
 open Lyon Lyon.Drive Lyon.Shapes
@@ -27,7 +30,32 @@ def shape (v : Array String) : String :=
     | none => "v 0 t 0"
   else fMesh (fillRectangle c mx)
 
+def fCall : Path.Call (P α) Unit → String
+  | .begin p _ => "B " ++ fp p
+  | .line p _ => "L " ++ fp p
+  | .quad c p _ => "Q " ++ fp c ++ " " ++ fp p
+  | .cubic c1 c2 p _ => "C " ++ fp c1 ++ " " ++ fp c2 ++ " " ++ fp p
+  | .end_ cl => "E " ++ (if cl then "1" else "0")
+
+def rdPts (v : Array String) : Nat → Nat → List (P α)
+  | 0, _ => []
+  | n+1, i => rdP v i :: rdPts v n (i+2)
+
+def helpers [ArcConv.Eps α] (v : Array String) : String :=
+  let positive := rdNat v 1 == 1
+  let calls : List (Path.Call (P α) Unit) :=
+    match v.getD 0 "" with
+    | "rect" => PathShapes.addRectangle (rdP v 2) (rdP v 4) positive
+    | "circle" => PathShapes.addCircle (rdP v 2) (rd v 4) positive
+    | "fillcircle" => PathShapes.fillAddCircle (rdP v 2) (rd v 4) positive
+    | "ellipse" => PathShapes.addEllipse (rdP v 2) (rdP v 4) (rd v 6) positive
+    | "rrect" => PathShapes.addRoundedRectangle (rdP v 2) (rdP v 4) ⟨rd v 6, rd v 7, rd v 8, rd v 9⟩ positive
+    | "polygon" => PathShapes.addPolygon (rdPts v (rdNat v 3) 4) (rdNat v 2 == 1)
+    | _ => []
+  unwords (calls.map fCall)
+
 def families : List Family := [
+  ⟨"helpers", helpers (α := Float32), helpers (α := Float)⟩,
   ⟨"shape", shape (α := Float32), shape (α := Float)⟩,
   Family.plain "chk_curve" (fun v => SlabIO.handle "curve" false v 0) ]
 
